@@ -223,7 +223,9 @@ PROPS["C23"] = {
 
 # ------------------------------------------------------------------ probes (not claimed, development only)
 PROPS["PROBE7"] = {"claimed": False, "groups": [dict(ZV_INCRATE, harnesses=[
-    H("c01_seq_t_conc", timeout=2400, mem_gb=50, recursion_bounds=REC1)])]}
+    H("bis5", timeout=600, mem_gb=14, recursion_bounds=REC1)])]}
+PROPS["PROBE9"] = {"claimed": False, "groups": [dict(ZV, harnesses=[
+    H("c01_enc_at", timeout=1800, mem_gb=24, recursion_bounds=REC1), H("c01_enc_ay", timeout=1800, mem_gb=24, recursion_bounds=REC1)])]}
 PROPS["PROBE8"] = {"claimed": False, "groups": [dict(ZV_INCRATE, harnesses=[
     H("c07_site_ser_struct", timeout=1200), H("c07_site_ser_array", timeout=1200),
     H("c07_site_de_struct", timeout=1200), H("c07_site_de_array", timeout=1200)])]}
